@@ -36,7 +36,7 @@ type dMsg struct {
 	inv, ret  int // event ticks; -1 = not yet
 	delivered int
 	pos       int
-	delivTick int // tick of the (first) delivery
+	delivTick int   // tick of the (first) delivery
 	invOwn    int   // the calling task's own step count at invocation
 	invNow    int64 // simulated time at invocation
 	task      *zsim.Task
@@ -55,19 +55,19 @@ type dRun struct {
 	prop string
 	ch   *zsim.Choices
 
-	ring      int
-	interval  time.Duration
-	nProd     int
-	nWrites   int
-	viaLogger bool
-	scenario  int
-	reentrant bool
-	sinkKind  int
-	sinkDelay time.Duration
-	stallAt   int
-	stallFor  time.Duration
-	gap       int
-	fatalWait bool
+	ring       int
+	interval   time.Duration
+	nProd      int
+	nWrites    int
+	viaLogger  bool
+	scenario   int
+	reentrant  bool
+	sinkKind   int
+	sinkDelay  time.Duration
+	stallAt    int
+	stallFor   time.Duration
+	gap        int
+	fatalWait  bool
 	errKind    int
 	twoClosers bool  // a second goroutine calls Close at the same time
 	closeRets  []int // tick at which each Close call returned
@@ -78,33 +78,34 @@ type dRun struct {
 	close2Ret  int
 	nbWritten  map[string]bool
 	nbSeen     map[string]bool
-	fatalFilt int // 0: the Fatal event is enabled; 1: logger level Disabled; 2: global level Disabled
-	skipIdle  bool
+	fatalFilt  int // 0: the Fatal event is enabled; 1: logger level Disabled; 2: global level Disabled
+	skipIdle   bool
 
-	tick       int
-	msgs       []*dMsg
-	byData     map[string]*dMsg
-	pending    map[int]*dMsg
-	deliveries []*dMsg
-	lastK      map[int]int
-	alertSum   int
-	alertCalls int
-	collisions int
-	sinkIn     int
-	sinkCalls  int
-	started    int
-	maxOut     int
-	closeInv   int
-	closeRet   int
-	fatalMsg   *dMsg
-	phaseBDone bool
-	settled    bool
-	prodTasks  []*zsim.Task
-	dw         diode.Writer
-	tap        *dTap
-	sinkErrs   int
-	sinkClosed int // tick at which Close of the wrapped writer was called
-	closeNow   int64
+	tick          int
+	msgs          []*dMsg
+	byData        map[string]*dMsg
+	pending       map[int]*dMsg
+	deliveries    []*dMsg
+	lastK         map[int]int
+	alertSum      int
+	alertCalls    int
+	collisions    int
+	sinkIn        int
+	sinkCalls     int
+	started       int
+	maxOut        int
+	closeInv      int
+	closeRet      int
+	firstCloseInv int // tick of the first Close call by anyone
+	fatalMsg      *dMsg
+	phaseBDone    bool
+	settled       bool
+	prodTasks     []*zsim.Task
+	dw            diode.Writer
+	tap           *dTap
+	sinkErrs      int
+	sinkClosed    int // tick at which Close of the wrapped writer was called
+	closeNow      int64
 }
 
 func (r *dRun) on(p string) bool { return r.prop == p }
@@ -152,6 +153,9 @@ func (t *dTap) Close() error {
 		return nil
 	}
 	r.closeInv = r.t()
+	if r.firstCloseInv == 0 {
+		r.firstCloseInv = r.closeInv
+	}
 	r.closeNow = zsim.S.Now()
 	zsim.Log("Close invoked")
 	err := r.dw.Close()
@@ -403,9 +407,20 @@ func (r *dRun) deliveredInTime(m *dMsg) bool {
 	return true
 }
 
+// owed: C11 is about the messages whose Write had returned when Close was called. A
+// Write that the alerter makes from inside the drain of a Close (a re-entrant alerter
+// logging through the same writer) comes after that point: it may be delivered, but
+// nothing is promised for it.
+func (r *dRun) owed(m *dMsg) bool {
+	if m.ret < 0 {
+		return false
+	}
+	return r.firstCloseInv == 0 || m.ret < r.firstCloseInv
+}
+
 func (r *dRun) missing() (n int, ids []string) {
 	for _, m := range r.msgs {
-		if m.ret >= 0 && !r.deliveredInTime(m) {
+		if r.owed(m) && !r.deliveredInTime(m) {
 			n++
 			ids = append(ids, m.id)
 		}
@@ -416,7 +431,18 @@ func (r *dRun) missing() (n int, ids []string) {
 func (r *dRun) written() int {
 	n := 0
 	for _, m := range r.msgs {
-		if m.ret >= 0 {
+		if r.owed(m) {
+			n++
+		}
+	}
+	return n
+}
+
+// lateWrites: Writes that returned after the first Close call was made.
+func (r *dRun) lateWrites() int {
+	n := 0
+	for _, m := range r.msgs {
+		if m.ret >= 0 && !r.owed(m) {
 			n++
 		}
 	}
@@ -595,6 +621,9 @@ func (diodeWorld) Run(prop string, ch *zsim.Choices, trace bool) *RunResult {
 			// whichever Close returns, everything written must have been delivered or reported
 			zsim.Probe("two_closers")
 			closer2 = zsim.Spawn("closer2", func() {
+				if t := r.t(); r.firstCloseInv == 0 {
+					r.firstCloseInv = t
+				}
 				r.dw.Close()
 				if !zsim.Dying() {
 					r.closeRets = append(r.closeRets, r.t())
@@ -697,11 +726,19 @@ func (r *dRun) post(s *zsim.Sim) *zsim.Violation {
 			if r.closeRet == 0 || !allReturned {
 				return nil
 			}
+			for _, m := range r.msgs {
+				if m.inv >= 0 && m.inv < r.firstCloseInv && m.ret > r.firstCloseInv {
+					// a Write (of the re-entrant alerter) was in progress when Close was called:
+					// not a history the statement covers
+					zsimProbePost(s, "close_premise_false")
+					return nil
+				}
+			}
 			for _, T := range r.closeRets {
 				miss, al := 0, 0
 				var mids []string
 				for _, m := range r.msgs {
-					if m.ret >= 0 && (m.delivered == 0 || m.delivTick > T) {
+					if r.owed(m) && (m.delivered == 0 || m.delivTick > T) {
 						miss++
 						mids = append(mids, m.id)
 					}
@@ -721,11 +758,13 @@ func (r *dRun) post(s *zsim.Sim) *zsim.Violation {
 			}
 			inTime := 0
 			for _, m := range r.msgs {
-				if m.ret >= 0 && r.deliveredInTime(m) {
+				if r.owed(m) && r.deliveredInTime(m) {
 					inTime++
 				}
 			}
-			if r.collisions == 0 && inTime+r.alertSum != r.written() {
+			// (with Writes made after Close was called the alerts may also cover those: no
+			// exact count then)
+			if r.collisions == 0 && r.lateWrites() == 0 && inTime+r.alertSum != r.written() {
 				return viol("C11.count_mismatch", "no retry happened but delivered before Close returned(%d)+reported(%d) != written(%d)", inTime, r.alertSum, r.written())
 			}
 			if r.maxOut < r.ring && (r.alertSum != 0 || n != 0) {
